@@ -1,6 +1,8 @@
 import PfModel.DriverLib
 import PfModel.Model.Hashable
-/-! Driver for C15 (`hashable.key`, `hashable.memo`). Run: `lake env lean --run Driver/C15.lean < requests.jsonl`. -/
+import PfModel.Model.HashableKeys
+import PfModel.Model.HashableSort
+/-! Driver for C15 (`keys`, `memo`; the keys around `to_hashable`: `memokeys`, `pipekeys`, `mapkeys`, `bind`, `pcache`). Run: `lake env lean --run Driver/C15.lean < requests.jsonl`. -/
 open Lean PF.Drv PF.Hashable
 
 def clsNames : List (String × Cls) :=
@@ -114,6 +116,55 @@ def memoRun : Memo → List PV → List Json
     | .ok (r, hit, m') => jArr [jNat r, jBool hit] :: memoRun m' as
     | .error e => putErr e :: memoRun m as
 
+/-- `kwargs`: a list of `[name (code points), value]` in the order the keywords were written -/
+def getKw (j : Json) : R (List (PF.Hashable.Name × PV)) := asList (asPair (asList asNat) (getPV 64)) j
+
+def putExc (r : Except Err PV) : Json :=
+  match r with
+  | .ok k => jObj [("key", putPV k), ("hashable", jBool (hashable k))]
+  | .error e => putErr e
+
+/-- `{"args": [...], "kwargs": [[name, v], ...]}` -/
+def memoKeyOf (j : Json) : R Json := do
+  let args ← (← asArr (← fld j "args")).mapM (getPV 64)
+  let kw ← getKw (← fld j "kwargs")
+  return putExc (memoKey args kw)
+
+def pipeKeyOf (j : Json) : R Json := do
+  let out ← getPV 64 (← fld j "out")
+  let roots ← listF (asList asNat) j "roots"
+  let kw ← getKw (← fld j "kwargs")
+  return match pipeKey out roots kw with
+    | .ok (some k) => jObj [("key", putPV k), ("hashable", jBool (hashable k))]
+    | .ok none => jObj [("nokey", jBool true)]
+    | .error e => putErr e
+
+def mapKeyOf (j : Json) : R Json := do
+  let out ← getPV 64 (← fld j "out")
+  let kw ← getKw (← fld j "kwargs")
+  return putExc (mapKey out kw)
+
+def getParam (j : Json) : R Param := do
+  return { name := ← listF asNat j "name", default := ← optF (getPV 64) j "default" }
+
+def bindOf (j : Json) : R Json := do
+  let ps ← listF getParam j "params"
+  let args ← (← asArr (← fld j "args")).mapM (getPV 64)
+  let kw ← getKw (← fld j "kwargs")
+  return match bindArgs ps args kw with
+    | some l => jObj [("bound", jList (fun (p : PF.Hashable.Name × PV) => jArr [jList jNat p.1, putPV p.2]) l)]
+    | none => jObj [("rejected", jBool true)]
+
+def getPCall (j : Json) : R (PV × List PF.Hashable.Name × List (PF.Hashable.Name × PV)) := do
+  return (← getPV 64 (← fld j "out"), ← listF (asList asNat) j "roots", ← getKw (← fld j "kwargs"))
+
+def pcacheRun : PCache → List (PV × List PF.Hashable.Name × List (PF.Hashable.Name × PV)) → List Json
+  | _, [] => []
+  | c, (out, roots, kw) :: as =>
+    match c.call out roots kw with
+    | .ok (r, hit, c') => jArr [jNat r, jBool hit] :: pcacheRun c' as
+    | .error e => putErr e :: pcacheRun c as
+
 def handle (m : String) (a : Json) : R Json := do
   match m with
   | "keys" =>
@@ -123,6 +174,16 @@ def handle (m : String) (a : Json) : R Json := do
   | "memo" =>
     let vs ← (← asArr (← fld a "args")).mapM (getPV 64)
     return jArr (memoRun {} vs)
+  | "memokeys" => return Json.arr (← (← asArr (← fld a "calls")).mapM memoKeyOf).toArray
+  | "pipekeys" => return Json.arr (← (← asArr (← fld a "calls")).mapM pipeKeyOf).toArray
+  | "mapkeys" => return Json.arr (← (← asArr (← fld a "calls")).mapM mapKeyOf).toArray
+  | "bind" => return Json.arr (← (← asArr (← fld a "calls")).mapM bindOf).toArray
+  | "sortw" =>
+    let ls ← (← asArr (← fld a "lists")).mapM (asList (asPair (getPV 64) (getPV 64)))
+    return jList (fun ps => match sortW ps with
+      | .ok s => jObj [("sorted", jList (fun (p : PV × PV) => jArr [putPV p.1, putPV p.2]) s)]
+      | .error e => putErr e) ls
+  | "pcache" => return jArr (pcacheRun {} (← (← asArr (← fld a "calls")).mapM getPCall))
   | _ => .error s!"unknown entry {m}"
 
 def main : IO Unit := loop handle
